@@ -1,6 +1,6 @@
 (* C08 -- cursors, seeks and ranges return the right entries in order.
    Property theorems only; proofs live in proofs/CursorFacts.v (and proofs/SeekFacts.v). *)
-From Coq Require Import List.
+From Coq Require Import List NArith.
 From Jamm Require Import Bytes Codec Tree Spec Cursor CursorFacts.
 Import ListNotations.
 
@@ -26,7 +26,7 @@ Print Assumptions C08_never_panics.
 
 (* the pinned (pre-repair) machine violates the property: kept so a regression is recognised *)
 Theorem C08_legacy_debug_refuted : forall F, exists c1,
-  next_legacy true (S F) (new_cursor (TL 3 0 [])) = CVal (c1, None) /\
+  next_legacy true (S F) (new_cursor (TL 3%N 0%N [])) = CVal (c1, None) /\
   next_legacy true (S F) c1 = CPanic.
 Proof. exact next_legacy_debug_refuted. Qed.
 Print Assumptions C08_legacy_debug_refuted.
